@@ -115,12 +115,19 @@ def gen_case(rng, big=True):
             keycols = [[['i', rng.randrange(3)] for _ in range(n)] for _ in range(depth)]
         flat = rng.random() < 0.5
         labels = [['s', 'L%03d' % i] for i in range(n)] if flat else [['i', x] for x in rng.sample(range(3 * n + 1), n)]
+        auto = rng.random() < 0.3          # the container's own auto-integer index (map-less): the labels ARE the positions before the sort, not after
+        if auto:
+            labels = [['i', i] for i in range(n)]
         if rng.random() < 0.5:
             col = _keyvals(rng, n, 'i', 5)
             s = {'index': labels, 'vals': col['vals'], 'dt': col['dt'], 'name': ['none']}
+            if auto:
+                s['index_auto'] = True
             return {'op': 's_sort_index_key', 's': s, 'ascending': asc, 'keyform': form, 'keycols': keycols}, None
         cols = [_keyvals(rng, n, rng.choice('if'), 3) for _ in range(2)]
         f = {'index': labels, 'columns': [['s', 'a'], ['s', 'b']], 'cols': cols, 'name': ['none']}
+        if auto:
+            f['index_auto'] = True
         return {'op': 'f_sort_index_key', 'f': f, 'ascending': asc, 'keyform': form, 'keycols': keycols}, C.rand_layout(rng, f)
     nk = rng.choice([1, 1, 2, 3])
     ncols = nk + rng.randint(0, 2)
@@ -182,7 +189,7 @@ def main(ctx):
                 ctx.sample({'leg': 'R', 'case': cs, 'expected': exp})
         ctx.exhaustive = True
     events, meta = [], {}
-    for i in range(500 if quick else 8000):
+    for i in range(1500 if quick else 20000):
         cs, lay = gen_case(ctx.rng)
         res, order = run_case(cs, lay)
         events.append({'id': i, 'cs': cs, 'res': res, 'order': order})
